@@ -16,6 +16,7 @@ import os
 import random
 import sys
 import threading
+import zlib
 
 import fastavro
 from fastavro import parse_schema, schemaless_reader, schemaless_writer
@@ -203,7 +204,7 @@ def run(tier, seed):
     for a in names:
         na = count_points(ops[a])
         for b in names:
-            if tier == "quick" and (hash((a, b, seed)) % 3 != 0) and not (a.startswith("read-decimal") and b.startswith("read-decimal")):
+            if tier == "quick" and (zlib.crc32(("%s|%s|%d" % (a, b, seed)).encode()) % 3 != 0) and not (a.startswith("read-decimal") and b.startswith("read-decimal")):
                 continue
             if na <= cap:
                 points = list(range(1, na + 1))
